@@ -187,7 +187,7 @@ def integer(name, lo, hi, default=None):
     elif name in ST.drawn:
         v = ST.drawn[name]
     else:
-        v = default if default is not None else ST.rng.randint(lo, hi)
+        v = (default(ST.rng) if callable(default) else default) if default is not None else ST.rng.randint(lo, hi)
         ST.drawn[name] = v
     if ST.mode == "const":
         return _core().const_int(v)
